@@ -607,6 +607,8 @@ def run(ctx):
             continue
         def cval(e, N):
             e = hirq.strip(e)
+            while e.get("k") == "block" and not e.get("stmts") and e.get("e") is not None:
+                e = hirq.strip(e["e"])
             if e.get("k") == "mcall" and e["m"] == "len" and str((hirq.strip(e["recv"]).get("res") or {}).get("dk", "")).startswith(("Const", "Static")):
                 return N
             if e.get("k") == "bin" and e["op"] in ("-", "+"):
@@ -620,6 +622,13 @@ def run(ctx):
                     for x in hirq.walk(n["r"]):
                         if x.get("k") == "mcall" and x["m"] in ("min", "clamp") and x.get("args"):
                             clamps.append((cval(x["args"][-1], N), "`%s`" % hirq.render(x)[:50], x.get("ln")))
+                        if x.get("k") == "if" and x.get("else") is not None:
+                            # `P = if v > K { K2 } else { v }`
+                            c_ = hirq.strip(x["c"])
+                            if c_.get("k") == "bin" and c_["op"] in (">", ">=") and cval(c_["r"], N) is not None and cval(x["then"], N) is not None:
+                                kk = cval(c_["r"], N)
+                                thru = kk if c_["op"] == ">" else kk - 1
+                                clamps.append((max(cval(x["then"], N), thru), "`%s`" % hirq.render(x)[:50], x.get("ln")))
                         if x.get("k") == "call" and re.search(r"cmp::min$", x.get("fn") or "") and len(x.get("args") or []) == 2:
                             ks = [cval(a_, N) for a_ in x["args"]]
                             clamps.append((next((k_ for k_ in ks if k_ is not None), None), "`%s`" % hirq.render(x)[:50], x.get("ln")))
